@@ -281,6 +281,8 @@ def run_C04(run):
     run.hist("C04", 4 if q else 5, nslots=2, maxiters=3, docs_per=1)
     # the same node-set expressions as operands evaluated in place (scalar results): E;E;E...
     run.hist("C04ops", 3 if q else 4, nslots=2, maxiters=4, docs_per=2 if q else 1, stage="hist-inplace")
+    # ... and inside function arguments (cloned per call): boolean(E = 'x'), not(E or false()), concat(string(E = ..), ..)
+    run.hist("C04fn", 3 if q else 4, nslots=2, maxiters=4, docs_per=1, stage="hist-infunction")
 
 
 SHARE_CALLS = {"Select", "Evaluate", "StringJoin", "Concat", "Matches", "Compile"}
